@@ -182,3 +182,6 @@ def run(repo: Repo, rep: Report, tier: str) -> None:
     eof_rule(repo, rep, "C07.R5")
     fallback_rule(repo, rep, "C07.R6")
     nesting_rule(repo, rep, "C07.R7")
+    from .c10 import lookup_order_rule
+
+    lookup_order_rule(repo, rep, "C07.R8")
